@@ -15,6 +15,8 @@ Sources (each a syntactic pattern whose failure mode was reproduced on the real 
   nonefield       arithmetic on <local>.<field> where the local was built in the same function by a class whose
                   __init__ sets the field to None and fills it only conditionally (Viewbox after an incomplete
                   viewBox), without a None test on that field dominating the use                            -> TypeError
+  nonepoint       Point(<path>._segments[i].start|end) without a dominating None test of that expression: a closepath
+                  with nothing before it is stored as Close(None, None)                                    -> TypeError
 Exceptions are propagated along resolved calls (constructors -> __init__ chain, Class.m, self.m by MRO in the context
 class, unique method names, unique non-trivial property getters) and subtracted at try/except handlers.
 Unresolved calls contribute nothing and are counted.
@@ -62,10 +64,23 @@ class Flow:
             self._unique_setters = {gn: cs[0] for gn, cs in setters.items() if len(cs) == 1}
         return self._unique_methods
 
-    def resolve(self, call, ctxclass):
+    def resolve(self, call, ctxclass, scope=None):
         """-> list of (qual, fn, ctxclass_for_callee)"""
         m = self.m
         f = call.func
+        if scope is not None and isinstance(f, ast.Attribute) and isinstance(f.value, ast.Name) and f.value.id not in ("self", "cls") and f.value.id not in m.classes:
+            # local bound once, to a constructor call of a module class: tokens = SVGLexicalParser(); tokens.parse(...)
+            binds = [b for b in ast.walk(scope) if isinstance(b, (ast.Assign, ast.AugAssign, ast.For, ast.comprehension, ast.With, ast.NamedExpr))
+                     and any(isinstance(t, ast.Name) and t.id == f.value.id and isinstance(t.ctx, ast.Store) for t in ast.walk(b))]
+            params = [a.arg for a in scope.args.args + scope.args.kwonlyargs]
+            if len(binds) == 1 and f.value.id not in params and isinstance(binds[0], ast.Assign) and len(binds[0].targets) == 1 and isinstance(binds[0].targets[0], ast.Name) \
+                    and isinstance(binds[0].value, ast.Call) and isinstance(binds[0].value.func, ast.Name) and binds[0].value.func.id in m.classes:
+                c = binds[0].value.func.id
+                try:
+                    fn = m.func("%s.%s" % (c, f.attr))
+                    return [("%s.%s" % (m.owner("%s.%s" % (c, f.attr)), f.attr), fn, c)]
+                except AnalysisError:
+                    pass
         if isinstance(f, ast.Name):
             if f.id in m.classes:
                 for c in m.mro(f.id):
@@ -104,6 +119,19 @@ class Flow:
                 except AnalysisError:
                     return None
         return None
+
+    def instance_local(self, a, scope):
+        if isinstance(a, ast.Call) and isinstance(a.func, ast.Name) and a.func.id in self.m.classes:
+            return True
+        if not isinstance(a, ast.Name):
+            return False
+        params = [x.arg for x in scope.args.args + scope.args.kwonlyargs]
+        if a.id in params:
+            return False
+        binds = [b for b in ast.walk(scope) if isinstance(b, (ast.Assign, ast.AugAssign, ast.For, ast.comprehension, ast.With, ast.NamedExpr))
+                 and any(isinstance(t, ast.Name) and t.id == a.id and isinstance(t.ctx, ast.Store) for t in ast.walk(b))]
+        return bool(binds) and all(isinstance(b, ast.Assign) and len(b.targets) == 1 and isinstance(b.targets[0], ast.Name) and isinstance(b.value, ast.Call)
+                                   and isinstance(b.value.func, ast.Name) and b.value.func.id in self.m.classes for b in binds)
 
     def maybe_none_fields(self, cname):
         """fields `self.f = None` at the top level of __init__ that no later top-level statement of __init__ sets unconditionally"""
@@ -146,24 +174,24 @@ class Flow:
         return self._group_cache[key]
 
     # ------------------------------------------------------------------ main
-    def may_raise(self, qual, fn, ctxclass, n_star=None):
+    def may_raise(self, qual, fn, ctxclass, n_star=None, notstr=()):
         """-> dict exception name -> witness (where it originates)"""
-        key = (qual, ctxclass, n_star if fn.args.vararg else None)
+        key = (qual, ctxclass, n_star if fn.args.vararg else None, tuple(sorted(notstr)))
         if key in self.memo:
             return self.memo[key]
         if key in self.stack:
             return {}
         self.stack.add(key)
         try:
-            an = _Fn(self, qual, fn, ctxclass, n_star)
+            an = _Fn(self, qual, fn, ctxclass, n_star, notstr)
             res = an.block(fn.body)
         finally:
             self.stack.discard(key)
         self.memo[key] = res
         return res
 
-    def call_may_raise(self, call, ctxclass, via="?"):
-        targets = self.resolve(call, ctxclass)
+    def call_may_raise(self, call, ctxclass, via="?", scope=None):
+        targets = self.resolve(call, ctxclass, scope)
         if targets is None:
             self.unresolved += 1
             return {}
@@ -178,7 +206,17 @@ class Flow:
                 n_star = max(0, len(call.args) - named - (0 if bound else 0))
                 if not bound and fn.args.args and fn.args.args[0].arg == "self":
                     n_star = max(0, len(call.args) - len(fn.args.args))
-            r = self.may_raise(qual, fn, c, n_star)
+            # parameters that receive an instance of a module class at this site (a local bound once to a constructor call):
+            # `isinstance(param, str)` is False for them in the callee
+            notstr = set()
+            if scope is not None and not any(isinstance(a, ast.Starred) for a in call.args):
+                pnames = [a.arg for a in fn.args.args]
+                if pnames and pnames[0] in ("self", "cls") and not (isinstance(call.func, ast.Attribute) and isinstance(call.func.value, ast.Name) and call.func.value.id in self.m.classes):
+                    pnames = pnames[1:]
+                for pn, a in zip(pnames, call.args):
+                    if self.instance_local(a, scope):
+                        notstr.add(pn)
+            r = self.may_raise(qual, fn, c, n_star, notstr)
             for e, w in r.items():
                 out.setdefault(e, w if w.startswith("<-") is False and " in " in w else w)
         return {e: "%s <- %s" % (via, w) if via != "?" and not w.startswith(via) else w for e, w in out.items()}
@@ -209,8 +247,9 @@ def caught(exc, types):
 
 
 class _Fn:
-    def __init__(self, flow, qual, fn, ctxclass, n_star=None):
+    def __init__(self, flow, qual, fn, ctxclass, n_star=None, notstr=()):
         self.flow = flow
+        self.notstr = set(notstr)
         self.qual = qual
         self.fn = fn
         self.ctx = ctxclass
@@ -242,6 +281,18 @@ class _Fn:
                 return {ast.Eq: n == k, ast.NotEq: n != k, ast.Gt: n > k, ast.GtE: n >= k, ast.Lt: n < k, ast.LtE: n <= k}.get(type(test.ops[0]))
         if isinstance(test, ast.Name) and test.id == va:
             return self.n_star > 0
+        return None
+
+    def decide_test(self, test):
+        d = self.decide_arity(test)
+        if d is not None:
+            return d
+        if isinstance(test, ast.Call) and isinstance(test.func, ast.Name) and test.func.id == "isinstance" and len(test.args) == 2 and isinstance(test.args[0], ast.Name) \
+                and test.args[0].id in self.notstr and isinstance(test.args[1], ast.Name) and test.args[1].id == "str":
+            # the parameter must not have been rebound before the test
+            rebound = any(isinstance(t, ast.Name) and t.id == test.args[0].id and isinstance(t.ctx, ast.Store) and t.lineno < test.lineno for t in ast.walk(self.fn))
+            if not rebound:
+                return False
         return None
 
     def collect_taint(self):
@@ -331,7 +382,7 @@ class _Fn:
         if isinstance(s, (ast.FunctionDef, ast.ClassDef)):
             return {}
         if isinstance(s, ast.If):
-            d = self.decide_arity(s.test)
+            d = self.decide_test(s.test)
             out = self.expr(s.test)
             if d is not False:
                 merge(out, self.block(s.body))
@@ -611,10 +662,25 @@ class _Fn:
             if inner:
                 merge(out, self.src("ValueError", "map(%s, <document text list>)" % ast.unparse(n.args[0]), n))
             return out
+        if isinstance(f, ast.Name) and f.id == "Point" and len(n.args) == 1 and isinstance(n.args[0], ast.Attribute) and n.args[0].attr in ("start", "end") \
+                and "_segments[" in ast.unparse(n.args[0]):
+            # nonepoint: the end points of a STORED segment may be None (`z` first stores Close(None, None)); Point(None) raises
+            from .flow import dominated
+
+            chain = ast.unparse(n.args[0])
+
+            def atom_test(test, positive):
+                if isinstance(test, ast.Compare) and len(test.ops) == 1 and isinstance(test.comparators[0], ast.Constant) and test.comparators[0].value is None \
+                        and ast.unparse(test.left) == chain and isinstance(test.ops[0], (ast.Is, ast.IsNot)):
+                    return isinstance(test.ops[0], ast.IsNot) == positive
+                return False
+
+            if not dominated(n, self.fn, atom_test):
+                merge(out, self.src("TypeError", "Point(%s) of a stored end point that may be None" % chain, n))
         for a in n.args:
             if isinstance(a, ast.Starred):
                 inner = self.taint_of(a.value)
                 if inner and inner[1] == "list":
                     merge(out, self.src("TypeError", "star-call %s with a data-dependent number of arguments" % ast.unparse(n)[:50], n))
-        merge(out, self.flow.call_may_raise(n, self.ctx, via=self.qual))
+        merge(out, self.flow.call_may_raise(n, self.ctx, via=self.qual, scope=self.fn))
         return out
